@@ -274,6 +274,28 @@ def run_cli(ctx):
                                "pty_bytes": hx(data[:4000]), "piped_output": piped[:2000]})
             if len(violations) >= 3:
                 break
+        # the same command with --snapshot on the SAME terminal: cmd/helpers.BuildVTerm(forceSnapshot) picks the
+        # BufferedTerm while AutoTrim is on and the width comes from TIOCGWINSZ (the only way to reach the trimming
+        # path of VirtualTerm.WriteToOutput through the CLI).  Lean: live_and_buffered_same_screen – both writers
+        # leave the same screen, cursor parked on the same row.
+        snap = cmd[:2] + ["--snapshot"] + cmd[2:]
+        data2 = _pty_run(snap, rows, cols)
+        scr2, row2, vis2 = _screen(ctx, cols, rows, data2)
+        runs += 1
+        bad2 = None
+        for i, l in enumerate(want):
+            if "B/s" in l:
+                continue
+            if scr2[i].rstrip() != l[:cols].rstrip():
+                bad2 = "row %d shows %r, the lines are %r (cut to %d columns)" % (i, scr2[i], l, cols)
+                break
+        if bad2 is None and (row2 != len(want) or not vis2):
+            bad2 = "cursor on row %d visible=%s after the snapshot, expected row %d visible" % (row2, vis2, len(want))
+        if bad2:
+            violations.append({"key": "cli-snapshot-tty-differs", "cmd": " ".join(snap), "cols": cols, "rows": rows, "explanation": bad2,
+                               "pty_bytes": hx(data2[:4000]), "piped_output": piped[:2000]})
+            if len(violations) >= 3:
+                break
     # the terminal is shorter than the block of lines (known finding: the writer does not know the height)
     path = os.path.join(work, "short.log")
     chunk1 = "".join("key%d %d\n" % (i % 7, i) for i in range(200)).encode()
@@ -295,7 +317,7 @@ def run_cli(ctx):
                   "after the last frame %s the last lines of the buffered output; the repeated frames are in the scrollback"
                   % (len(want), frames, "equal" if same else "DIFFER from"))
     return {"runs": runs, "violations": violations,
-            "assumptions": ["real CLI (rare histo) run %d times on a pty (live TermWriter, AutoTrim from the pty size) and piped (BufferedTerm); final screens computed by the reference terminal" % runs, short_note]}
+            "assumptions": ["real CLI (rare histo) run %d times on a pty (live TermWriter; --snapshot = BufferedTerm with AutoTrim from the pty size) and piped (BufferedTerm, no trimming); final screens computed by the reference terminal" % runs, short_note]}
 
 
 def run(ctx):
